@@ -444,7 +444,7 @@ def run(chk, prog):
         der = "closure not found"
         if ok:
             c0 = clo[0]
-            loopname = "eval_jaxpr_iterate_dual" if kn == "dual" else "eval_jaxpr_iterate_pure"
+            loopname = dual_loop.name if kn == "dual" else pure_loop.name  # (found by name or, after a rename, by position)
             evd.closures[c0[1]].env[loopname] = ("global", "$loop")
             res = evd.apply(c0, [P("$key"), P("$x")] if kn == "dual" else [P("$key"), ("star", P("$x"))], module=AD.module, cls=AD)
             der = show(res)[:260]
@@ -459,11 +459,15 @@ def run(chk, prog):
         chk.require(bool(ok), "CPS-CONT", f"eval_jaxpr_iterate_dual._sample_{kn}_kont", "resumes after this equation, on a copied environment, binding this equation's outvars", derived=der,
                     expected=f"{'eval_jaxpr_iterate_dual' if kn == 'dual' else 'eval_jaxpr_iterate_pure'}(key, eqns[eqn_idx + 1:], <copied env>, eqn.outvars, values)", where=whereI)
     # the cond continuation resumes in the DUAL environment (tangents of earlier variables must survive the cond)
-    ck = [("closure", k) for k, c in evd.closures.items() if c.name == "_cond_dual_kont"]
+    # the cond continuation, by role: the nested function of the dual loop that is neither of the two sample continuations and resumes the dual loop
+    import ast as _ast2
+    cond_nodes = [n_ for n_ in _ast2.walk(dual_loop) if isinstance(n_, _ast2.FunctionDef) and n_ not in (dual_loop, dkont, pkont) and len(n_.args.args) == 1
+                  and any(isinstance(x_, _ast2.Call) and isinstance(x_.func, _ast2.Name) and x_.func.id == dual_loop.name for x_ in _ast2.walk(n_))]
+    ck = [("closure", k) for k, c in evd.closures.items() if c.node in cond_nodes]
     okc_ = len(ck) >= 1
     derc_ = "closure not found"
     if okc_:
-        evd.closures[ck[0][1]].env["eval_jaxpr_iterate_dual"] = ("global", "$loop")
+        evd.closures[ck[0][1]].env[dual_loop.name] = ("global", "$loop")
         resc = evd.apply(ck[0], [P("$x")], module=AD.module, cls=AD)
         derc_ = show(resc)[:260]
         okc_ = is_t(resc, "call") and resc[1] == ("global", "$loop") and len(resc[2]) == 5 and resc[2][2] in (P("dual_env"), ("call", ("attr", P("dual_env"), "copy"), (), ())) \
